@@ -184,8 +184,10 @@ def e2_part(run, scr, sess, seed, tier='quick'):
 
     # ---- Power2Round: the two per-coefficient closures of the real power2round
     p2 = [n for n in funcs if n.startswith('power2round::{closure#') and n.endswith('::{closure#0}')]
-    cA = [n for n in p2 if 'r_1' not in funcs[n].debug_of and 'r' in funcs[n].debug_of and funcs[n].ret == 'i32' and not any('contains' in l for ls in funcs[n].blocks.values() for l in ls)]
-    cB = [n for n in p2 if 'r_1' in funcs[n].debug_of and funcs[n].ret == 'i32']
+    def ncaps(n):      # number of captured variables of a closure (by its debug entries that project out of the environment)
+        return len([p_ for p_ in funcs[n].debug if p_.startswith('(*(') and 'R; K]' in p_])
+    cA = [n for n in p2 if ncaps(n) == 1 and funcs[n].ret == 'i32' and not any('contains' in l for ls in funcs[n].blocks.values() for l in ls)]
+    cB = [n for n in p2 if ncaps(n) == 2 and funcs[n].ret == 'i32']
     if len(cA) == 1 and len(cB) == 1:
         run.functions += ['MIR ' + cA[0], 'MIR ' + cB[0]]
         EP = e2.Exec(funcs, params={'K': 1})
